@@ -61,7 +61,11 @@ def execute(row, seed, policy=None):
             return ['orig', 0]
         return ['other:' + type(exc).__name__, 0]
 
+    refuse_now = [False]
+
     def factory(idx, sess):
+        if refuse_now[0]:
+            return None                 # the server is unreachable at this moment: the TCP connection is refused
         sc = TracingScript(run, prof, [])
         steps = [('expect', 2)]
         if status_phase and (idx == 0 or (sc.parsed and sc.parsed[0].get('next') == 1)):
@@ -125,6 +129,14 @@ def execute(row, seed, policy=None):
             def fn(exc, info, i=i, h=h):
                 obs['log'].append([i, kind(exc)])
                 if h['b'] == 'raise':
+                    if seed % 3 == 0 and not status_phase:
+                        # the handler first tries to connect again, the server is unreachable, and it gives up with an
+                        # exception of its own: no new connection exists, the failed one is still to be closed
+                        refuse_now[0] = True
+                        try:
+                            obs['refused_attempt'] = api(run, c, 'connect')
+                        finally:
+                            refuse_now[0] = False
                     raise ReplError(i)
                 if h['b'] == 'reconnect':
                     obs['reconnect_result'] = api(run, c, 'connect')
